@@ -29,7 +29,10 @@ _PROG = {}
 def prog_for(cfg="A"):
     if cfg not in _PROG:
         _PROG[cfg] = build.load_program(cfg, files=["src/bls12_381/curve.cpp", "src/bls12_381/curve_fast_multiply.cpp",
-                                                    "src/bls12_381/decomposition.cpp"], tag="c06_" + cfg)
+                                                    "src/bls12_381/decomposition.cpp",
+                                                    # explicit instantiation of every width the API accepts (no code of its own)
+                                                    os.path.join(os.path.dirname(os.path.dirname(os.path.abspath(__file__))), "harness", "inst_curve.cpp")],
+                                           tag="c06_" + cfg)
     return _PROG[cfg]
 
 
